@@ -81,6 +81,22 @@ def walk_shape(l, inh, dflt):
         cur = nxt
 
 
+def loop_tail(l, inh, dflt):
+    """(cycle length or None, hops before the cycle / to the end of the walk)"""
+    seq, cur = [l], l
+    while True:
+        nxt = inh.get(cur)
+        if nxt is None:
+            return None, len(seq) - 1
+        if nxt == dflt:
+            return None, len(seq)
+        if nxt in seq:
+            i = seq.index(nxt)
+            return len(seq) - i, i
+        seq.append(nxt)
+        cur = nxt
+
+
 def resolution(l, inh, dflt, defines):
     if defines(l):
         return "own"
@@ -110,6 +126,8 @@ C03_DIMS = {
     "state": ["defined", "null", "absent", "group_null", "group_absent"],
     "inh": ["none", "to_default", "self", "chain_end", "chain_default", "cycle", "rho"],
     "res": ["own", "inherited_1", "inherited_far", "default_by_end", "default_by_loop", "default_explicit"],
+    "loop": ["none", "1", "2", "3+"],       # length of the `inherits` cycle the walk from the locale runs into
+    "tail": ["0", "1", "2+"],               # hops from the locale to that cycle (0 = it is on it), else to the end of the walk
     "depth": ["1", "2", "3+"],
     "ns": ["none", "first", "later"],
     "pos": ["second", "later"],
@@ -139,6 +157,41 @@ def c03_infeasible(d1, v1, d2, v2):
         return "the outcome of the walk is determined by its shape"
     if d1 == "state" and d2 == "depth" and v1.startswith("group_") and v2 == "1":
         return "a top-level key has no parent group"
+    if d1 == "inh" and d2 == "loop":
+        ok = {"none": ["none"], "to_default": ["none"], "chain_end": ["none"], "chain_default": ["none"], "self": ["1"],
+              "cycle": ["2", "3+"], "rho": ["1", "2", "3+"]}[v1]
+        if v2 not in ok:
+            return "the cycle length is part of the shape of the walk"
+    if d1 == "inh" and d2 == "tail":
+        ok = {"none": ["0"], "to_default": ["1"], "chain_end": ["1", "2+"], "chain_default": ["2+"], "self": ["0"],
+              "cycle": ["0"], "rho": ["1", "2+"]}[v1]
+        if v2 not in ok:
+            return "the number of hops is part of the shape of the walk"
+    if d1 == "res" and d2 == "loop":
+        if v1 == "default_by_loop" and v2 == "none":
+            return "the outcome of the walk is determined by its shape"
+        if v1 in ("default_by_end", "default_explicit") and v2 != "none":
+            return "the outcome of the walk is determined by its shape"
+    if d1 == "res" and d2 == "tail" and v2 == "0" and v1 == "default_explicit":
+        return "the outcome of the walk is determined by its shape"
+    if d1 == "res" and d2 == "tail" and v2 == "1" and v1 == "inherited_far" and False:
+        return None
+    if d1 == "loop" and d2 == "tail" and v1 == "none" and False:
+        return None
+    if d1 == "loop" and d2 == "nloc":
+        need = {"none": 0, "1": 1, "2": 2, "3+": 3}[v1] + 1
+        if need > {"2": 2, "3": 3, "4": 4, "5+": 9}[v2]:
+            return "not enough non-default locales"
+    if d1 == "tail" and d2 == "nloc" and v1 == "2+" and v2 == "2":
+        return "not enough non-default locales"
+    if d1 == "name_order" and d2 == "loop" and ((v1 == "none" and v2 != "none") or (v1 == "self" and v2 != "1")):
+        return "name order is relative to the locale's inherits target"
+    if d1 == "name_order" and d2 == "tail" and v1 in ("none", "self") and v2 != "0":
+        return "name order is relative to the locale's inherits target"
+    if d1 == "name_order" and d2 == "tail" and v1 in ("before_target", "after_target") and v2 == "0" and False:
+        return None
+    if d1 == "fork" and v1 == "yes" and d2 == "tail" and v2 == "0" and False:
+        return None
     if d1 == "nloc" and v1 == "2":
         if d2 == "pos" and v2 == "later":
             return "with two locales the only non-default locale is second"
@@ -194,6 +247,8 @@ def c03_tags(p, build):
                 obs.append({
                     "state": st[l], "inh": walk_shape(l, inh, dflt),
                     "res": resolution(l, inh, dflt, lambda x: st[x] == "defined"),
+                    "loop": "none" if loop_tail(l, inh, dflt)[0] is None else cap(loop_tail(l, inh, dflt)[0], 3),
+                    "tail": cap(loop_tail(l, inh, dflt)[1], 2),
                     "depth": cap(len(path), 3),
                     "ns": "none" if ns == "-" else "first" if ns == p["namespaces"][0] else "later",
                     "ndefaulted": cap(sum(1 for x in order[1:] if st[x] != "defined"), 3),
@@ -274,22 +329,38 @@ def c03_draw(rng, gap):
 
 
 def c03_build(rng, sc):
-    inter = {"none": 0, "to_default": 0, "self": 0}.get(sc["inh"])
-    if inter is None:
-        inter = 2 if sc["res"] == "inherited_far" else rng.choice([1, 1, 2])
+    shape = sc["inh"]
+    want_t = {"0": 0, "1": 1, "2+": rng.choice([2, 2, 3])}[sc.get("tail", "1")]
+    want_k = {"none": 0, "1": 1, "2": 2, "3+": rng.choice([3, 3, 4])}[sc.get("loop", "none")]
+    entry = None
+    if shape in ("none", "to_default", "self"):
+        inter = 0
+    elif shape == "chain_end":
+        inter = max(1, want_t)
+    elif shape == "chain_default":
+        inter = max(1, want_t - 1)
+    elif shape == "cycle":
+        inter = max(2, want_k) - 1
+    else:                                   # rho: a tail into a cycle that does not contain the locale
+        t, k = max(1, want_t), max(1, want_k)
+        inter, entry = t - 1 + k, t - 1
+    if sc["res"] == "inherited_far" and inter < 2:
+        if shape == "rho":
+            inter, entry = 2, rng.choice([0, 1])
+        elif shape in ("chain_end", "chain_default", "cycle"):
+            inter = 2
+        else:
+            return None
     need = 2 + inter + (1 if sc["fork"] == "yes" else 0)
     nloc = {"2": 2, "3": 3, "4": 4, "5+": rng.choice([5, 6])}[sc["nloc"]]
-    if sc["nloc"] not in ("5+",) and need > nloc:
-        if sc["inh"] in ("chain_end", "chain_default", "cycle", "rho") and inter == 2 and sc["res"] != "inherited_far":
-            inter, need = 1, need - 1
-        if need > nloc:
-            return None
+    if sc["nloc"] != "5+" and need > nloc:
+        return None
     nloc = max(nloc, need)
+    if nloc > len(mc.LOCALE_POOL):
+        return None
     if sc["pos"] == "later" and nloc < 3:
         return None
-    if sc["fork"] == "yes" and sc["inh"] == "none":
-        return None
-    if sc["fork"] == "no" and sc["inh"] == "rho":
+    if sc["fork"] == "yes" and shape == "none":
         return None
     names = rng.sample(mc.LOCALE_POOL, nloc)
     D, L = names[0], names[1]
@@ -300,14 +371,14 @@ def c03_build(rng, sc):
     for a, b in zip(seq, seq[1:]):
         inh[a] = b
     last = seq[-1]
-    if sc["inh"] in ("to_default", "chain_default"):
+    if shape in ("to_default", "chain_default"):
         inh[last] = D
-    elif sc["inh"] == "self":
+    elif shape == "self":
         inh[L] = L
-    elif sc["inh"] == "cycle":
+    elif shape == "cycle":
         inh[last] = L
-    elif sc["inh"] == "rho":
-        inh[last] = chain[0]
+    elif shape == "rho":
+        inh[last] = chain[entry]
     forker = None
     if sc["fork"] == "yes":
         forker = rest.pop(0)
